@@ -493,6 +493,10 @@ func main() {
 	fmt.Fprintf(&b, "/-- reload: the comparison operators of that test -/\ndef sameVersionOps : List String := [%s]\n\n", joinQuoted(sm.cmpOps))
 	fmt.Fprintf(&b, "/-- options.go WithConfigObserver: the field is assigned the caller's registry itself (the parameter), not something derived from it -/\ndef observerStoredDirectly : Bool := %v\n\n", observerDirect(filepath.Join(dir, "options.go")))
 	fmt.Fprintf(&b, "/-- config/ConfigObserver.go: lock of the registry held at each call of a target's ApplyConfig -/\ndef observerCallbackHeld : List Held := [%s]\n\n", strings.Join(observerCallbackHeld(filepath.Join(*repo, "config", "ConfigObserver.go")), ", "))
+	fmt.Fprintf(&b, "/-- DefaultFileParser.Write: how the error of each call of the store part is bound (assign = to the function's err; define-in-if / define = to a new variable; dropped) -/\ndef storeErrBindings : List (String × String) := [%s]\n\n", strings.Join(storeErrBindings(filepath.Join(dir, "DefaultFileParser.go")), ", "))
+	rf := reloadFacts(filepath.Join(dir, "FileConfig.go"))
+	fmt.Fprintf(&b, "/-- reload: os.Stat calls; is every assignment of the file stamp (last_file_time from the file) placed before the call of Parser.Read? -/\ndef statCallsInReload : Nat := %d\ndef stampRecordedBeforeRead : Bool := %v\n\n", rf.stats, rf.stampBeforeRead)
+	fmt.Fprintf(&b, "/-- replacements of the whole map (`this.m = make(…)`) in methods of FileConfig: (method, lock held, refilled before the lock is released) -/\ndef mapReplacements : List (String × Held × Bool) := [%s]\n\n", strings.Join(rf.replacements, ", "))
 	b.WriteString("/-- the table assigned by ApplyDefault -/\ndef defaults : List (String × String) := [\n")
 	for i, d := range sm.defaults {
 		sep := ","
@@ -622,4 +626,217 @@ func observerCallbackHeld(goFile string) []string {
 		}
 	}
 	return out
+}
+
+// storeErrBindings: for the calls io.WriteString, <file>.Sync, <file>.Close, os.Rename of Write's store part.
+func storeErrBindings(goFile string) []string {
+	fset := token.NewFileSet()
+	f, err := parser.ParseFile(fset, goFile, nil, 0)
+	if err != nil {
+		return []string{`("unreadable", "dropped")`}
+	}
+	var out []string
+	name := func(c *ast.CallExpr) string {
+		n := exprString(c.Fun)
+		switch {
+		case n == "io.WriteString":
+			return "WriteString"
+		case n == "os.Rename":
+			return "Rename"
+		case strings.HasSuffix(n, ".Sync"):
+			return "Sync"
+		case strings.HasSuffix(n, ".Close"):
+			return "Close"
+		}
+		return ""
+	}
+	for _, d := range f.Decls {
+		fd, ok := d.(*ast.FuncDecl)
+		if !ok || fd.Name.Name != "Write" || fd.Recv == nil || fd.Body == nil {
+			continue
+		}
+		seenTemp := false
+		var walk func(n ast.Node, inIfInit bool)
+		walk = func(n ast.Node, inIfInit bool) {
+			ast.Inspect(n, func(m ast.Node) bool {
+				switch x := m.(type) {
+				case *ast.IfStmt:
+					if x.Init != nil {
+						walk(x.Init, true)
+					}
+					walk(x.Cond, false)
+					walk(x.Body, false)
+					if x.Else != nil {
+						walk(x.Else, false)
+					}
+					return false
+				case *ast.AssignStmt:
+					for _, r := range x.Rhs {
+						if c, ok := r.(*ast.CallExpr); ok {
+							if strings.Contains(exprString(c.Fun), "CreateTemp") {
+								seenTemp = true
+							}
+							if nm := name(c); nm != "" && seenTemp {
+								kind := "assign"
+								if x.Tok == token.DEFINE {
+									kind = "define"
+									if inIfInit {
+										kind = "define-in-if"
+									}
+								}
+								// assigned to a variable called err?
+								hasErr := false
+								for _, l := range x.Lhs {
+									if id, ok := l.(*ast.Ident); ok && id.Name == "err" {
+										hasErr = true
+									}
+								}
+								if kind == "assign" && !hasErr {
+									kind = "assign-other"
+								}
+								out = append(out, fmt.Sprintf("(%s, %s)", leanStr(nm), leanStr(kind)))
+							}
+						}
+					}
+					return false
+				case *ast.ExprStmt:
+					if c, ok := x.X.(*ast.CallExpr); ok {
+						if nm := name(c); nm != "" && seenTemp {
+							out = append(out, fmt.Sprintf("(%s, %s)", leanStr(nm), leanStr("dropped")))
+						}
+					}
+					return false
+				case *ast.DeferStmt:
+					return false
+				}
+				return true
+			})
+		}
+		walk(fd.Body, false)
+	}
+	return out
+}
+
+type reloadFactsT struct {
+	stats           int
+	stampBeforeRead bool
+	replacements    []string
+}
+
+func reloadFacts(goFile string) reloadFactsT {
+	var rf reloadFactsT
+	fset := token.NewFileSet()
+	f, err := parser.ParseFile(fset, goFile, nil, 0)
+	if err != nil {
+		return rf
+	}
+	for _, d := range f.Decls {
+		fd, ok := d.(*ast.FuncDecl)
+		if !ok || fd.Body == nil {
+			continue
+		}
+		recv, isM := recvOf(fd, "FileConfig")
+		if !isM {
+			continue
+		}
+		// whole-map replacements with the lock held and "refilled before the lock is released"
+		w := &lockWalker{recv: recv, field: "m", held: "none", facts: &methodFacts{}, methods: map[string]bool{}}
+		var scan func(list []ast.Stmt)
+		scan = func(list []ast.Stmt) {
+			for i, st := range list {
+				// nested blocks first (with the lock state at their start)
+				switch x := st.(type) {
+				case *ast.IfStmt:
+					held := w.held
+					w.stmt(x.Init)
+					scan(x.Body.List)
+					w.held = held
+					if eb, ok := x.Else.(*ast.BlockStmt); ok {
+						scan(eb.List)
+					} else if ei, ok := x.Else.(*ast.IfStmt); ok {
+						scan([]ast.Stmt{ei})
+					}
+					w.held = held
+					continue
+				case *ast.ForStmt:
+					scan(x.Body.List)
+					continue
+				case *ast.RangeStmt:
+					scan(x.Body.List)
+					continue
+				case *ast.BlockStmt:
+					scan(x.List)
+					continue
+				}
+				if as, ok := st.(*ast.AssignStmt); ok && len(as.Lhs) == 1 && w.isRecvField(as.Lhs[0], "m") {
+					refilled := false
+					for _, nx := range list[i+1:] {
+						if es, ok := nx.(*ast.ExprStmt); ok {
+							if c, ok := es.X.(*ast.CallExpr); ok {
+								if m := w.mutexCall(c); m == "Unlock" || m == "RUnlock" {
+									break
+								}
+								if sel, ok := c.Fun.(*ast.SelectorExpr); ok {
+									if id, ok := sel.X.(*ast.Ident); ok && id.Name == recv {
+										refilled = true // a method of the same object fills the map
+									}
+								}
+							}
+						}
+						if a2, ok := nx.(*ast.AssignStmt); ok {
+							for _, l := range a2.Lhs {
+								if ix, ok := l.(*ast.IndexExpr); ok && w.isRecvField(ix.X, "m") {
+									refilled = true
+								}
+							}
+						}
+						if _, ok := nx.(*ast.RangeStmt); ok {
+							refilled = true
+						}
+					}
+					rf.replacements = append(rf.replacements, fmt.Sprintf("(%s, .%s, %v)", leanStr(fd.Name.Name), w.held, refilled))
+				}
+				w.stmt(st)
+			}
+		}
+		scan(fd.Body.List)
+		if fd.Name.Name != "reload" {
+			continue
+		}
+		readPos, lastStamp := token.NoPos, token.NoPos
+		ast.Inspect(fd.Body, func(n ast.Node) bool {
+			switch x := n.(type) {
+			case *ast.CallExpr:
+				nm := exprString(x.Fun)
+				if nm == "os.Stat" || nm == "os.Lstat" {
+					rf.stats++
+				}
+				if strings.HasSuffix(nm, "Parser.Read") && readPos == token.NoPos {
+					readPos = x.Pos()
+				}
+			case *ast.AssignStmt:
+				for i, l := range x.Lhs {
+					if sel, ok := l.(*ast.SelectorExpr); ok && (sel.Sel.Name == "last_file_time" || sel.Sel.Name == "last_file_size") {
+						// the sentinel assignments (literal 0 / -1) are not stamps of a file
+						if i < len(x.Rhs) {
+							if _, lit := x.Rhs[i].(*ast.BasicLit); lit {
+								continue
+							}
+							if u, ok := x.Rhs[i].(*ast.UnaryExpr); ok {
+								if _, lit := u.X.(*ast.BasicLit); lit {
+									continue
+								}
+							}
+						}
+						if x.Pos() > lastStamp {
+							lastStamp = x.Pos()
+						}
+					}
+				}
+			}
+			return true
+		})
+		rf.stampBeforeRead = readPos != token.NoPos && lastStamp != token.NoPos && lastStamp < readPos
+	}
+	return rf
 }
